@@ -5,9 +5,9 @@ CONSTANTS
   Code <- RFCCode
   CLen <- RFCLen
   MaxList = 2
-  Short = {1, 2, 3, 4, 5, 6, 7, 8, 9, 10, 11, 12, 13, 14}
-  Long = {15, 16}
-  Octets = {0, 1, 16, 31, 32, 33, 39, 41, 58, 80, 95, 97, 128, 129, 192, 194, 255}
+  Short = {1, 2, 3, 4, 5, 6, 7, 9, 10, 11, 12, 13}
+  Long = {8, 14, 15, 16}
+  Octets = {0, 1, 31, 32, 33, 41, 58, 80, 95, 97, 128, 129, 192, 194, 255}
   MaxOctets = 3
   LongFirst = {}
 INVARIANTS Emit
